@@ -64,3 +64,14 @@ CLAIMS["C03"] = (
     "Trusted: mc/ref objective. Prefix edges (k,e)->(k+1,e) are validated by obj_out prefix equality; (1,e)->(1,e+1) rely "
     "on determinism (RNG seeded from the data only). Non-convex penalties only in their well-posed step range.",
     "DESIGN.md §4 C03")
+CLAIMS["C04"] = (
+    "model_checking",
+    "explicit-state exploration of solver trajectories (every stopping point of a budget rectangle is a state reached by a real solve), exact feasibility / finiteness invariant on every state",
+    "Every constrained penalty (positive=True variants incl. zero group weights, PositiveConstraint, IndicatorBox) x every solver "
+    "accepting it (AndersonCD, GramCD, ProxNewton, FISTA, GroupBCD, GroupProxNewton, PDCD_WS; dense and CSC) x designs whose "
+    "unconstrained solution is infeasible x alphas x knob variants x cold / feasible / infeasible warm starts: at every "
+    "stopping point of the rectangle (budgets straddling both extrapolation periods) the coefficients must satisfy the "
+    "constraint exactly and all numbers be finite; positive=True estimators and LinearSVC.dual_coef_ under truncated budgets.",
+    "Bounded alphabets. Poisson/Gamma/Cox are not run on 2^10-rescaled designs (exp leaves float64). Budget 0 from an "
+    "infeasible start is exempt (start returned untouched). Known finding: prox-Newton solvers from infeasible starts.",
+    "DESIGN.md §4 C04")
